@@ -87,12 +87,6 @@ func init() {
 	})
 	setIntrinsic(hpath+"vAssume", func(ex *Exec, fn *ssa.Function, a []Value) Value {
 		ex.assume(a[0].(*Term))
-		if !a[0].(*Term).IsConst() {
-			// an assumption that cannot be met ends the path silently
-			if ex.solver.Check() == Unsat {
-				panic(pathEnd{"assume", "unsatisfiable assumption"})
-			}
-		}
 		return nil
 	})
 	setIntrinsic(hpath+"vAssert", func(ex *Exec, fn *ssa.Function, a []Value) Value {
@@ -106,9 +100,6 @@ func init() {
 		if ex.knownMode == id {
 			// inside this region: keep only inputs of the region, let the assertions fire
 			ex.assume(region)
-			if !region.IsConst() && ex.solver.Check() == Unsat {
-				panic(pathEnd{"assume", "region empty"})
-			}
 			return falseT
 		}
 		if !ex.W.isOpenFinding(id) {
@@ -117,9 +108,6 @@ func init() {
 		}
 		// outside mode: prove the property on the complement of every listed region
 		ex.assume(Not(region))
-		if !region.IsConst() && ex.solver.Check() == Unsat {
-			panic(pathEnd{"assume", "complement empty"})
-		}
 		return falseT
 	})
 	setIntrinsic(hpath+"vAllocBound", func(ex *Exec, fn *ssa.Function, a []Value) Value {
@@ -133,6 +121,16 @@ func init() {
 		n := ex.concInt(a[0].(*Term))
 		ex.stepLimit = ex.steps + n
 		return nil
+	})
+	setIntrinsic(hpath+"vArith", func(ex *Exec, fn *ssa.Function, a []Value) Value {
+		ex.arithInt = ex.concInt(a[0].(*Term)) == 1
+		return nil
+	})
+	setIntrinsic(hpath+"vTier", func(ex *Exec, fn *ssa.Function, a []Value) Value {
+		if ex.W.tier == "thorough" {
+			return i64(1)
+		}
+		return i64(0)
 	})
 	setIntrinsic(hpath+"vSymbolic", func(ex *Exec, fn *ssa.Function, a []Value) Value { return trueT })
 	setIntrinsic(hpath+"vTrace", func(ex *Exec, fn *ssa.Function, a []Value) Value {
